@@ -206,6 +206,9 @@ def cross_validate(chk, per_schema):
 
 # =============================================================================== stage 3: states
 
+_uuid_n = [0]
+
+
 def _u(prefix, i):
     return '%s%07d-0000-0000-0000-000000000000' % (prefix, i)
 
@@ -294,6 +297,7 @@ STATES = {
 
 def build_state(app, name):
     app.reset()
+    _uuid_n[0] = 0
     for (m, p, b, v) in STATES[name]:
         r = app.call(m, p, b, version=v)
         if r.status >= 300:
@@ -573,7 +577,7 @@ EXTRA_QUERY_KEYS = ['foo', 'resources', 'resources1', 'resources_A', 'required',
 PATH_SEGMENTS_BAD = ['not-a-uuid', UNKNOWN_UUID, UNKNOWN_UUID.upper(), '11111111111111111111111111111111',
                      '{%s}' % UNKNOWN_UUID, 'CUSTOM_T%0A', 'CUSTOM_X%0A', 'VCPU%0A', 'CUSTOM_%C3%89', '%C3%A9', '%00', '%FF',
                      'A' * 256, 'CUSTOM_' + 'A' * 249, 'CUSTOM_' + 'A' * 248, 'x' * 5000, '..', '.', '%2F', '%2e%2e', ' ',
-                     '%20', 'custom_lower', 'CUSTOM_', 'CUSTOM', 'vcpu', 'VCPU;x=1', 'a?b', 'a%3Fb', "'", '%27', '*',
+                     '%20', 'custom_lower', 'CUSTOM_', 'CUSTOM', 'vcpu', 'VCPU;x=1', 'a%3Fb', "'", '%27', '*',
                      '-1', '0', 'null', 'CUSTOM_A.B', 'CUSTOM_A-B', '%E0%A4%A', '%ED%A0%80', '+']
 EXTRA_HEADERS = [('x-roles', 'admin'), ('x-roles', ''), ('x-user-id', 'x'), ('openstack-system-scope', 'all'),
                  ('x-forwarded-proto', 'https'), ('forwarded', 'for=1;proto=x'), ('x-forwarded-host', '\xe9'),
@@ -836,8 +840,23 @@ class _CaptureLog(object):
 
 
 def install_capture():
+    """in-process patches of the harness (nothing in /repo changes): remember the exception behind a 500; make
+    server-generated uuids a deterministic sequence (restarted with every state restore) so that replays
+    reproduce the state"""
     from placement import fault_wrap
+    from oslo_utils import uuidutils
     fault_wrap.LOG = _CaptureLog()
+
+    def generate_uuid(dashed=True):
+        _uuid_n[0] += 1
+        u = 'd%07x-0000-4000-8000-%012x' % (_uuid_n[0], _uuid_n[0])
+        return u if dashed else u.replace('-', '')
+    uuidutils.generate_uuid = generate_uuid
+
+
+def restore_state(app, snap):
+    app.restore(snap)
+    _uuid_n[0] = 0
 
 
 def path_qs(req):
@@ -912,19 +931,30 @@ def check_error_body(status, headers, body):
     return out
 
 
+def _body_rec(body):
+    if body is None:
+        return None
+    try:
+        return {'text': body.decode('utf-8')} if len(body) < 4000 else {'base64': base64.b64encode(body).decode()}
+    except UnicodeDecodeError:
+        return {'base64': base64.b64encode(body).decode()}
+
+
+def req_rec(req):
+    return {'method': req['method'], 'path_qs': path_qs(req), 'headers': dict(req['headers']), 'body': _body_rec(req['body'])}
+
+
+_history = []
+
+
 def replay_obj(state, req, route, kinds, observed, expected):
-    body = req['body']
-    if body is not None:
-        try:
-            btxt = {'text': body.decode('utf-8')} if len(body) < 4000 else {'base64': base64.b64encode(body).decode()}
-        except UnicodeDecodeError:
-            btxt = {'base64': base64.b64encode(body).decode()}
-    else:
-        btxt = None
+    """state_build (API calls that build the start state) + history (the state-changing requests of the stream
+    since the state was last restored) + the request"""
+    rec = req_rec(req)
     return {'type': 'request', 'module': 'harness.props.c15', 'what': 'stream', 'state': state,
-            'state_build': [list(x) for x in STATES[state]], 'route': route, 'method': req['method'],
-            'path_qs': path_qs(req), 'headers': req['headers'], 'body': btxt, 'malformations': kinds,
-            'expected': expected, 'observed': observed}
+            'state_build': [list(x) for x in STATES[state]], 'history': list(_history), 'route': route,
+            'method': rec['method'], 'path_qs': rec['path_qs'], 'headers': rec['headers'], 'body': rec['body'],
+            'malformations': kinds, 'expected': expected, 'observed': observed}
 
 
 def norm_msg(s):
@@ -1201,6 +1231,7 @@ def worker(args):
     if wid == 0:
         # directed corpus first: the requests of every listed finding and of past failures
         for (sname, method, pq, ver, cbody, label) in CORPUS:
+            del _history[:]
             snap = build_state(app, sname)
             cur = app.dump()
             path, _, q = pq.partition('?')
@@ -1220,11 +1251,13 @@ def worker(args):
     per_state = max(1, n_requests // len(state_names))
     for sname in state_names:
         snap = build_state(app, sname)
+        del _history[:]
         cur = app.dump()
         since_reset = 0
         for i in range(per_state):
             if since_reset >= 150:
-                app.restore(snap)
+                restore_state(app, snap)
+                del _history[:]
                 cur = app.dump()
                 since_reset = 0
             since_reset += 1
@@ -1234,10 +1267,14 @@ def worker(args):
             except Exception as e:      # a bug of the generator must not end the run
                 tally('generator_errors', type(e).__name__)
                 continue
-            cur = run_one(sname, req, route, kinds, version, cur)
-            if state['broken']:
+            new = run_one(sname, req, route, kinds, version, cur)
+            if new != cur:
+                _history.append(req_rec(req))
+            cur = new
+            if state['broken'] or len(_history) > 40:
                 state['broken'] = False
-                app.restore(snap)
+                restore_state(app, snap)
+                del _history[:]
                 cur = app.dump()
                 since_reset = 0
     res['distinct'] = list(res['distinct'])
@@ -1377,18 +1414,24 @@ def replay(doc):
     app = App()
     install_capture()
     build_state(app, rp['state'])
-    body = rp.get('body')
-    if body is not None:
-        body = body['text'].encode('utf-8') if 'text' in body else base64.b64decode(body['base64'])
-    pq = rp['path_qs']
-    path, _, q = pq.partition('?')
-    req = {'method': rp['method'], 'path': path, 'query': [], 'headers': rp['headers'], 'body': body}
-    if q:
-        req['path'] = path
-        req['query'] = [(k, v.encode('latin-1')) for k, _, v in (kv.partition('=') for kv in q.split('&'))]
-        # keys are re-quoted by encode_query: undo the quoting of the recorded string first
+
+    def to_req(rec):
+        body = rec.get('body')
+        if body is not None:
+            body = body['text'].encode('utf-8') if 'text' in body else base64.b64decode(body['base64'])
+        path, _, q = rec['path_qs'].partition('?')
         import urllib.parse
-        req['query'] = [(urllib.parse.unquote(k), v) for k, v in req['query']]
+        query = [(urllib.parse.unquote(k), v.encode('latin-1')) for k, _, v in (kv.partition('=') for kv in q.split('&'))] if q else []
+        return {'method': rec['method'], 'path': path, 'query': query, 'headers': rec['headers'], 'body': body}
+
+    for rec in rp.get('history', []):
+        try:
+            st = send(app, to_req(rec))[0]
+        except Exception as e:
+            st = 'exception %r' % (e,)
+        print('  history: %s %s -> %s' % (rec['method'], rec['path_qs'][:120], st))
+    req = to_req(rp)
+    pq = rp['path_qs']
     before = app.dump()
     try:
         status, headers, rbody = send(app, req)
